@@ -93,8 +93,25 @@ func c10Gen(r *RNG, id string) *Case {
 		c.Set("reflay", r.PickStr([]string{"half", "short-first", "long-header", "w2500"}))
 		c.Tag("reference-beyond-one-scanner-window")
 	}
+	blockAligned := 0
+	if !longRow && !bigRef && c.Get("jit") == "" && r.Chance(1, 16) {
+		// scale: several hundred to a few thousand columns, rows equal to the reference except for tracts and single
+		// symbols that begin or end exactly at multiples of a power of two (a reader or comparer that works in blocks
+		// must carry its state across the blocks it skips)
+		ref = randSeq(r, r.PickInt([]int{520, 700, 1100, 2100, 4200}), symACGT, false)
+		n = r.Range(3, 7)
+		blockAligned = r.PickInt([]int{32, 64, 128, 256, 256, 512, 1024})
+		for blockAligned*2 > len(ref) {
+			blockAligned /= 2
+		}
+		c.Tag("block-aligned-tracts")
+	}
 	var seqs []string
 	for i := 0; i < n; i++ {
+		if blockAligned > 0 {
+			seqs = append(seqs, blockAlignedRow(r, strings.ToUpper(ref), blockAligned))
+			continue
+		}
 		if bigRef {
 			seqs = append(seqs, mutateSeq(r, strings.ToUpper(ref), symACGT, 1, 12, false))
 			continue
@@ -154,4 +171,39 @@ func execC10(r *RNG, c *Case) {
 		return out.String(), err
 	})
 	c.Set("go", goField(res))
+}
+
+// blockAlignedRow: ref with 2-6 features placed at multiples of B (1-based column m = k*B): a tract ending exactly at m, a tract
+// beginning at m+1, a single ambiguous symbol or a substitution at m or m+1
+func blockAlignedRow(r *RNG, ref string, B int) string {
+	b := []byte(ref)
+	w := len(b)
+	set := func(from, to int, sym byte) { // 1-based, inclusive
+		for p := from; p <= to; p++ {
+			if p >= 1 && p <= w {
+				b[p-1] = sym
+			}
+		}
+	}
+	for k := r.Range(2, 6); k > 0; k-- {
+		m := r.Range(1, w/B) * B
+		sym := r.Pick("NN-?RY")
+		L := r.PickInt([]int{1, 2, B / 2, B, B, 2 * B})
+		switch r.Intn(6) {
+		case 0, 1:
+			set(m-L+1, m, sym)
+		case 2:
+			set(m+1, m+L, sym)
+		case 3:
+			set(m+1, m+1, sym)
+		case 4:
+			set(m, m, sym)
+		default:
+			p := m + r.Intn(2)
+			if p <= w {
+				b[p-1] = r.Pick(strings.ReplaceAll(symACGT, string(ref[p-1]), ""))
+			}
+		}
+	}
+	return string(b)
 }
